@@ -232,7 +232,7 @@ def validate_trace(module, events, cfg=None, env=None, timeout=3600, keep=None, 
     seen = set()
     uniq = []
     for x in rejects:
-        k = x[:3]
+        k = x[:4]
         if k not in seen:
             seen.add(k)
             uniq.append(x)
